@@ -34,6 +34,40 @@ IDS = [(1, 0, 0, 0), (1, 0xffffffff, 0xffffffff, 0xffffffff), (1, 16777238, 0x80
        (0, 4, 0x7fffffff, 0x01020304), (255, 1, 2, 3)]
 
 
+_runtime_defined = []
+
+
+def define_runtime_commands():
+    """Commands registered through the documented diameter.message.commands.register(), with the Request / Answer /
+    other subclasses defined in every order (the order in which __subclasses__() lists them)."""
+    if _runtime_defined:
+        return _runtime_defined
+    from diameter.message import DefinedMessage
+    from diameter.message.commands import register
+    from diameter.message.avp.generator import AvpGenDef
+    from diameter.message import constants as C_
+
+    def make(base_name, code, order):
+        def post(self):
+            self.header.command_code = self.code
+            DefinedMessage.__post_init__(self)
+        Base = type(base_name, (DefinedMessage,), {"code": code, "name": base_name, "__post_init__": post})
+        made = {}
+        for suffix in order:
+            ns = {"avp_def": (AvpGenDef("session_id", C_.AVP_SESSION_ID, is_required=False),
+                              AvpGenDef("origin_host", C_.AVP_ORIGIN_HOST, is_required=False),
+                              AvpGenDef("origin_realm", C_.AVP_ORIGIN_REALM, is_required=False),
+                              AvpGenDef("result_code", C_.AVP_RESULT_CODE, is_required=False))}
+            made[suffix] = type(base_name + suffix, (Base,), ns)
+        Base.type_factory = classmethod(lambda cls, header: made["Request"] if header.is_request else made["Answer"])
+        register(Base)
+        return [Base] + list(made.values())
+    _runtime_defined.extend(make("VerifAnswerFirst", 16000011, ["Answer", "Request"]))
+    _runtime_defined.extend(make("VerifRequestFirst", 16000012, ["Request", "Answer"]))
+    _runtime_defined.extend(make("VerifOtherFirst", 16000013, ["Variant", "Request", "Answer"]))
+    return _runtime_defined
+
+
 def expected_answer_class(K):
     from diameter.message import Message
     name = K.__name__
@@ -207,6 +241,7 @@ def shard_main(shard, nshards, tier, scale):
     import os
     from diameter.message import Message, UndefinedMessage
     rec = Recorder(PID)
+    define_runtime_commands()
     classes = [Message] + all_subclasses(Message)
     rec.extra["classes_enumerated"] = len(classes)
     space = [(K, None) for K in classes] + [(UndefinedMessage, c) for c in (1, 999, (1 << 24) - 1)] + \
@@ -256,6 +291,7 @@ def replay(doc):
     from diameter.message import Message
     rec = Recorder(PID)
     case = doc["case"]
+    define_runtime_commands()
     classes = {k.__name__: k for k in [Message] + all_subclasses(Message)}
     K = classes[case["class"]]
     if "how" in case:
